@@ -22,6 +22,44 @@ def build_splitter(M, sp):
     return LineageVolumeSplitter(M, options=dict(sp["options"]), partition_noise=float(sp["noise"]))
 
 
+def add_growth(M, g):
+    if g["kind"] == "rule":
+        M.create_volume_rule(g["type"], dict(g["params"]))
+    else:
+        M.create_volume_event(g["type"], dict(g["params"]), g["prop"][0], dict(g["prop"][1]))
+
+
+def add_division(M, d):
+    vs = build_splitter(M, d["splitter"])
+    if d["kind"] == "rule":
+        M.create_division_rule(d["type"], dict(d["params"]), vs)
+    else:
+        M.create_division_event(d["type"], dict(d["params"]), d["prop"][0], dict(d["prop"][1]), vs)
+
+
+def add_death(M, d):
+    from bioscrape.lineage import GeneralDeathRule
+    if d["kind"] == "rule":
+        if d["type"] == "general":
+            # create_death_rule accepts the type name only through a concatenated-literal typo; the public
+            # add_lineage_rule with the rule object is used instead
+            M.add_lineage_rule(GeneralDeathRule(), dict(d["params"]), "death")
+        else:
+            M.create_death_rule(d["type"], dict(d["params"]))
+    else:
+        M.create_death_event(d["type"], dict(d["params"]), d["prop"][0], dict(d["prop"][1]))
+
+
+def base_lineage_model(ls):
+    from bioscrape.lineage import LineageModel
+    base = ls["base"]
+    return LineageModel(species=list(base["species"]),
+                        reactions=[specmod.reaction_tuple(rx) for rx in base["reactions"]],
+                        parameters=[(k, v) for k, v in base["params"].items()],
+                        rules=[specmod.rule_tuple(r) for r in base.get("rules", [])],
+                        initial_condition_dict=dict(base["x0"]), initialize_model=False)
+
+
 def to_lineage_model(ls, initialize=True):
     from bioscrape.lineage import LineageModel, GeneralDeathRule
     base = ls["base"]
@@ -31,26 +69,11 @@ def to_lineage_model(ls, initialize=True):
                      rules=[specmod.rule_tuple(r) for r in base.get("rules", [])],
                      initial_condition_dict=dict(base["x0"]), initialize_model=False)
     for g in ls["growth"]:
-        if g["kind"] == "rule":
-            M.create_volume_rule(g["type"], dict(g["params"]))
-        else:
-            M.create_volume_event(g["type"], dict(g["params"]), g["prop"][0], dict(g["prop"][1]))
+        add_growth(M, g)
     for d in ls["division"]:
-        vs = build_splitter(M, d["splitter"])
-        if d["kind"] == "rule":
-            M.create_division_rule(d["type"], dict(d["params"]), vs)
-        else:
-            M.create_division_event(d["type"], dict(d["params"]), d["prop"][0], dict(d["prop"][1]), vs)
+        add_division(M, d)
     for d in ls["death"]:
-        if d["kind"] == "rule":
-            if d["type"] == "general":
-                # create_death_rule accepts the type name only through a concatenated-literal typo; the public
-                # add_lineage_rule with the rule object is used instead
-                M.add_lineage_rule(GeneralDeathRule(), dict(d["params"]), "death")
-            else:
-                M.create_death_rule(d["type"], dict(d["params"]))
-        else:
-            M.create_death_event(d["type"], dict(d["params"]), d["prop"][0], dict(d["prop"][1]))
+        add_death(M, d)
     if initialize:
         M.py_initialize()
     return M
@@ -123,8 +146,11 @@ def lineage_specs(draw, allow_zero_propensity=True, max_pts=48, with_death=True,
     elif gkind == "multiplicative_noise":
         growth.append({"kind": "rule", "type": "multiplicative", "params": {"growth_rate": g_exp, "noise": _r(g_exp / 10)}})
     elif gkind == "ode":
-        p = b.new_param(g_exp)
-        growth.append({"kind": "rule", "type": "ode", "params": {"equation": f"{p}*volume"}})
+        if draw(st.booleans()):
+            growth.append({"kind": "rule", "type": "ode", "params": {"equation": f"{g_exp}*volume"}})   # no parameter at all
+        else:
+            p = b.new_param(g_exp)
+            growth.append({"kind": "rule", "type": "ode", "params": {"equation": f"{p}*volume"}})
     elif gkind == "ode_lin":
         p = b.new_param(g_lin)
         growth.append({"kind": "rule", "type": "ode", "params": {"equation": f"{p} + 0*A"}})
@@ -179,8 +205,11 @@ def lineage_specs(draw, allow_zero_propensity=True, max_pts=48, with_death=True,
         elif dk == "deltav":
             d = {"kind": "rule", "type": "deltaV", "params": {"threshold": b.value_entry(st.just(1.0))}}
         elif dk == "general":
-            p = b.new_param(2.0)
-            d = {"kind": "rule", "type": "general", "params": {"equation": f"volume - {p}"}}
+            if draw(st.booleans()):
+                d = {"kind": "rule", "type": "general", "params": {"equation": "volume - 2.0"}}          # no parameter at all
+            else:
+                p = b.new_param(2.0)
+                d = {"kind": "rule", "type": "general", "params": {"equation": f"volume - {p}"}}
         else:
             prop = draw(st.sampled_from(["const", "hill"]))
             if prop == "const":
